@@ -14,7 +14,7 @@ import PyamgV.Model.ExtC04YPairwise
   sparse Galerkin product of E27, for `theta != -` the stored-row filter `filterCsr`), fed with the numerical parts
   observed on a real run (`tableNum`): per call of the step the guard token `<in_k>` of `ext_c04_step` and the
   matrix tokens (`Driver/ExtE27.lean`; `-` = none) of the `P`, `R` the real step produced.  Reply
-  `<rows>;<blocksizes>;<reason>;<calls>;<verdict>;<near>;<flags>;<A_0>/<A_1>/...`: `verdict` = the proved checker on the
+  `<rows>;<blocksizes>;<reason>;<calls>;<verdict>;<near>;<flags>;<A_0>&<A_1>&...`: `verdict` = the proved checker on the
   MODEL's hierarchy (`checkHierS sym 0 (hier ..)`, with filtering `checkHierF <theta, lump, 0> sym 0 (toMat A0) (hierF ..)`;
   `ok` by `Props/C04.loop_builds_hierarchy_sparse` / `air_loop_builds_filtered_hierarchy` whenever the observed `P`, `R`
   are well formed), `near` = filter decisions of the model within `slack` (+ `tolN` bounds) of the threshold, `flags` =
@@ -85,12 +85,12 @@ def handle : List String → Option String
           let tN := parseRat tolN
           let near := countSkip cN tN A0.rows A0.cols (toMat A0) (toMat A0).absM + countSkipF cN tN hf
           some (head ++ ";" ++ (if ok then "ok" else whyFailF ⟨θ, lmp, 0⟩ sym 0 (toMat A0) hf) ++ ";" ++ toString near ++ ";" ++
-            sh (hf.map fun l => flagStr l.2) ++ ";" ++ String.intercalate "/" (hf.map fun l => showCRats l.1.A.data))
+            sh (hf.map fun l => flagStr l.2) ++ ";" ++ String.intercalate "&" (hf.map fun l => showCRats l.1.A.data))
         else
           let h := hier lvs
           let ok := checkHierS sym 0 h
           some (head ++ ";" ++ (if ok then "ok" else ExtE50.whyFailS sym 0 0 h) ++ ";0;" ++
-            sh (h.map fun _ => "0") ++ ";" ++ String.intercalate "/" (h.map fun l => showCRats l.A.data))
+            sh (h.map fun _ => "0") ++ ";" ++ String.intercalate "&" (h.map fun l => showCRats l.A.data))
     | none, _, _, _, _, _, _ => some "error:parse-sym"
     | _, _, _, _, _, .error e, _ => some e
     | _, _, _, _, _, _, .error e => some e
